@@ -35,7 +35,8 @@ Record cparams := {
   p_cap : nat;          (* cap= / n= *)
   p_new : bool;         (* new=1 *)
   p_iter : bool;        (* iter=1 *)
-  p_lazy : bool;         (* lazy=1: from_iter / join_all get an iterator whose size_hint is (0, Some n) *)
+  p_lazy : option nat;   (* the lower bound of size_hint the iterator handed to from_iter / join_all claims, if it is
+                            not the honest one: lazy=1 -> Some 0 (a filter iterator), ihint=K -> Some K (a lying one) *)
   p_seed : option Z;    (* seed= *)
   p_hlo : nat;          (* hint slack *)
   p_hhi : option N;     (* slack of the upstream's upper bound; N: values near 2^64 are of interest *)
